@@ -217,7 +217,13 @@ def _dfa_traces(run, which):
     scen = os.path.join(run.workdir, "dfa_scen.ndjson")
     run.generate("MC_Dfa", "MC_Dfa.cfg", scen, timeout=1200,
                  note="every complete DFA with <= 3 states over 2 letters; invariant: Nerode/quotient definitions agree")
-    out, info = _drive(run, "dfa", verb="replay", sub="replay", extra=["--scen", scen, "--for", which])
+    if run.tier == "thorough":
+        scen3 = os.path.join(run.workdir, "dfa_scen3.ndjson")
+        run.generate("MC_Dfa", "MC_Dfa3.cfg", scen3, timeout=3000, heap="8g",
+                     note="every complete DFA with <= 3 states over 3 letters (157 722)")
+        with open(scen, "a") as f, open(scen3) as g:
+            f.write(g.read())
+    out, info = _drive(run, "dfa", verb="replay", sub="replay", extra=["--scen", scen, "--for", which], timeout=3000)
     out2, info2 = _drive(run, "automata", sub="random", extra=["--for", which])
     run.extra["driver"] = [info, info2]
     return out, out2
